@@ -91,12 +91,13 @@ static std::string do_dec(std::istringstream& is, bool reenc) {
     std::string r = std::string(reenc ? "reenc" : "dec") + " halt=" + halt + " pos=" + std::to_string(pos) + " good=" + (good ? "true" : "false") + " eof=" + (eof ? "true" : "false") + " short=" + (tf.short_ ? "true" : "false");
     if (!reenc) r += " obj " + dump_obj(c, o);
     else if (halt == "none" && !tf.short_) {
-        // decoded completely: encode the decoded object again
+        // decoded completely: encode the decoded object again (`dec`: the object as decoded, before the encoder's pre-processing)
+        std::string dec0 = dump_obj(c, o);
         UncompressedFile uo; std::string h2 = "none";
         try { Capped cap; o->write(uo); } catch (Exception&) { h2 = "exc"; } catch (std::bad_alloc&) { h2 = "badalloc"; } catch (std::length_error&) { h2 = "badalloc"; }
         std::streamsize n = uo.tellp(); std::vector<uint8_t> out(size_t(n > 0 ? n : 0));
         if (n > 0) uo.read(reinterpret_cast<char*>(out.data()), n);
-        r += " ehalt=" + h2 + " out=" + to_hex(out.data(), out.size());
+        r += " ehalt=" + h2 + " out=" + to_hex(out.data(), out.size()) + " dec " + dec0;
     }
     if (reenc) r += " obj " + dump_obj(c, o);
     delete o;
